@@ -142,7 +142,7 @@ def search(ctx, diffs):
         inp = ctx.work / "search_in.txt"
         inp.write_text("\n".join(d["record"].rsplit("#", 1)[0] + "#" for d in diffs) + "\n")
         cand.append(ctx.harness_exec(binp, inp, tag="_search0"))
-    for seed in range(101, 109):
+    for seed in range(101, 104):
         cand.append(ctx.harness_gen(binp, "quick", seed, tag=f"_search{seed}"))
     for recs in cand:
         lines = recs.read_text().splitlines()
